@@ -86,13 +86,14 @@ class WcMachine(Machine):
             addr_share=w.choice([0.0, 0.3, 0.6]),
             bad_lines=w.random() < 0.25,
             log_faults=w.random() < 0.3,
+            log_level=w.choice(["DEBUG", "WARNING"]),
         )
 
     def reset(self, cfg):
         self.cfg = cfg
         self.ids.install()
         self.memo.install()
-        self.log.install()
+        self.log.install(cfg.get("log_level", "DEBUG"))
         if cfg.get("memo_size", "shipped") != "shipped" and self.memo.present:
             self.memo.resize(cfg["memo_size"])
             self.memo.fired["resize"] = 0
